@@ -27,8 +27,10 @@ def formatfile_suite(ctx):
     s = Suite("formatfile")
     r = ctx.rng("formatfile")
     texts = ["x = 1\n", "import os\nprint(1)\n", "def f(:\n", "if True:\n    print( 1 )\n", "y=2   \n\n\n\n\nz=3\n", "# pyrefact: skip_file\nimport os\n",
-             "print(1)\n", "    x = 1\n", "", "def g():\n    return 1\n    return 2\n"]
-    outs = ["x = 1\n", "print(1)\n", "def f(:\n", "oops(\n", None]
+             "print(1)\n", "    x = 1\n", "", "def g():\n    return 1\n    return 2\n",
+             "# auteur: Zo\u00eb \u2192 \u65e5\u672c\nimport os\nname = '\u00e5\u00e4\u00f6'\nprint( name )\n", "s = '\U0001f600'\nif True:\n    print(s)\n",
+             "def h():\n    gr\u00f6\u00dfe = 1\n    return 2\n    return gr\u00f6\u00dfe\n", "x = 1\r\ny = '\u00e9'\r\n"]
+    outs = ["x = 1\n", "print(1)\n", "def f(:\n", "oops(\n", "print('\u00e5\u00e4\u00f6 \u2192')\nprint([1, 2, 3])\n", None, None]
     orig = main.format_code
     tmp = Path(tempfile.mkdtemp(prefix="c03_"))
     try:
@@ -36,7 +38,7 @@ def formatfile_suite(ctx):
             initial = r.choice(texts)
             forced = r.choice(outs)  # None = the real format_code
             p = tmp / r.choice(["m.py", "__init__.py"])
-            p.write_text(initial)
+            p.write_bytes(initial.encode("utf-8"))
             mt = p.stat().st_mtime_ns
             if forced is not None:
                 main.format_code = lambda source, **kw: forced
@@ -44,7 +46,7 @@ def formatfile_suite(ctx):
                 ret = main.format_file(p)
             finally:
                 main.format_code = orig
-            after = p.read_text()
+            after = p.read_bytes().decode("utf-8", errors="replace")
             out = forced if forced is not None else orig(initial, keep_imports=p.name == "__init__.py")
             expect_written = out != initial and (core.is_valid_python(out) or not core.is_valid_python(initial))
             s.cases += 1
